@@ -887,6 +887,28 @@ class ShapeLifter(Lifter):
                         return TOP
                 return self.concat(parts) if parts else TOP
             return TOP
+        if f in ('np.stack', 'numpy.stack') and n.args and isinstance(
+                n.args[0], (ast.Tuple, ast.List)):
+            vals = [ev(e) for e in n.args[0].elts]
+            axis = sp.Integer(0)
+            for k in n.keywords:
+                if k.arg == 'axis':
+                    axis = ev(k.value)
+            if len(n.args) > 1:
+                axis = ev(n.args[1])
+            arrs = [v for v in vals if isinstance(v, Arr)]
+            if arrs and isinstance(axis, sp.Integer) and all(
+                    a.ndim == arrs[0].ndim for a in arrs):
+                a0 = arrs[0]
+                ax = int(axis)
+                if ax < 0:
+                    ax += a0.ndim + 1
+                if 0 <= ax <= a0.ndim:
+                    k_ = sp.Integer(len(vals))
+                    axes = list(a0.axes)
+                    axes.insert(ax, Ax(k_))
+                    return Arr(axes)
+            return TOP
         if f == 'np.broadcast_to' and n.args:
             sh = ev(n.args[1]) if len(n.args) >= 2 else None
             for k in n.keywords:
